@@ -276,11 +276,9 @@ class HyperRAMInterface(Elaboratable):
                 ]
                 m.d.comb += self.write_ready.eq(1),
 
-                # If we just finished a register write, we're done -- there's no need for recovery.
-                with m.If(is_register):
-                    m.next = 'IDLE'
-
-                with m.Elif(self.final_word):
+                # A register write is always a single word. Like any other transaction, it ends
+                # by passing through RECOVERY, which deasserts CS before the next command can start.
+                with m.If(is_register | self.final_word):
                     m.next = 'RECOVERY'
 
 
